@@ -159,6 +159,12 @@ pub struct TxRec {
     pub n_dgrams: u32,
     pub dst: SocketAddr,
     pub mtu_before: u16,
+    /// tap packet-record index range produced by this poll_transmit call
+    pub pk_from: usize,
+    pub pk_to: usize,
+    /// accounting snapshots around the call (when drv.track_probe)
+    pub before: Option<quinn_proto::VerifProbe>,
+    pub after: Option<quinn_proto::VerifProbe>,
 }
 
 #[derive(Clone, Debug)]
@@ -211,11 +217,12 @@ pub struct DriverCfg {
     /// cap on poll_transmit calls per drive (rest is left for the next step)
     pub transmit_cap: usize,
     pub track_frame_rx: bool,
+    pub track_probe: bool,
 }
 
 impl Default for DriverCfg {
     fn default() -> Self {
-        Self { late: 0, late_max: 0, spurious: false, transmit_cap: 10_000, track_frame_rx: false }
+        Self { late: 0, late_max: 0, spurious: false, transmit_cap: 10_000, track_frame_rx: false, track_probe: false }
     }
 }
 
@@ -267,6 +274,8 @@ pub struct World {
     /// largest one-way delay any datagram experienced so far
     pub max_owd: Ns,
     pub live_at_start: i64,
+    /// (tap index, probe snapshot) taken right before the poll_transmit call being processed
+    pub tx_ctx: Option<(usize, Option<quinn_proto::VerifProbe>)>,
 }
 
 #[derive(Clone, Debug)]
@@ -338,6 +347,7 @@ impl World {
             log_on: false,
             limits: Limits { max_events: 400_000, max_time: 12 * 3600 * SEC, max_heap: 1 << 30 },
             live_at_start: crate::alloc::live(),
+            tx_ctx: None,
             hit_limit: None,
             rx_deltas: Vec::new(),
             in_flight: 0,
@@ -714,7 +724,10 @@ impl World {
         if inc != NO_INC {
             self.conns[inc as usize].tx_datagrams += n as u64;
         }
-        self.txlog.push(TxRec { inc, t: self.now, size: t.size, segment_size: t.segment_size, first_dgram: first, n_dgrams: n, dst: t.destination, mtu_before });
+        let (pk_from, before) = self.tx_ctx.take().unwrap_or((usize::MAX, None));
+        let pk_to = if pk_from == usize::MAX { usize::MAX } else { self.tap.lock().unwrap().pkts.len() };
+        let after = if before.is_some() && inc != NO_INC { Some(self.conns[inc as usize].conn.verif_probe()) } else { None };
+        self.txlog.push(TxRec { inc, t: self.now, size: t.size, segment_size: t.segment_size, first_dgram: first, n_dgrams: n, dst: t.destination, mtu_before, pk_from, pk_to, before, after });
         if n > 1 {
             self.probes.hit("gso_batch");
         }
@@ -966,11 +979,13 @@ impl World {
                 }
                 buf.clear();
                 let mtu_before = self.conns[inc as usize].conn.current_mtu();
-                let pk_from = if self.log_on { self.tap.lock().unwrap().pkts.len() } else { 0 };
+                let pk_from = self.tap.lock().unwrap().pkts.len();
+                let before = if self.drv.track_probe { Some(self.conns[inc as usize].conn.verif_probe()) } else { None };
                 let t = self.conns[inc as usize].conn.poll_transmit(now, gso, &mut buf);
                 match t {
                     Some(t) => {
                         n += 1;
+                        self.tx_ctx = Some((pk_from, before));
                         if self.log_on {
                             let d = self.describe_pkts(pk_from);
                             let (sz, seg, dst, dn) = (t.size, t.segment_size, t.destination, self.dgrams.len());
